@@ -150,11 +150,146 @@ fn can_pack(args: &[&str]) -> String {
     format!("{}", b as u8)
 }
 
+fn parse_msgs(s: &str) -> Vec<(usize, Vec<u8>)> {
+    if s == "-" || s.is_empty() {
+        return Vec::new();
+    }
+    s.split(',')
+        .map(|m| {
+            let (c, p) = m.split_once(':').unwrap();
+            (num(c) as usize, unhex(p))
+        })
+        .collect()
+}
+
+fn fmt_msgs(ms: &[(u8, Vec<u8>)]) -> String {
+    if ms.is_empty() {
+        return "-".into();
+    }
+    ms.iter()
+        .map(|(c, p)| format!("{c:x}:{}", hex(p)))
+        .collect::<Vec<_>>()
+        .join(",")
+}
+
+/// `cond <batch/batch/...>`: conditioner without configuration, as `receive_packets` uses it.
+fn cond(args: &[&str]) -> String {
+    use bevy_replicon_example_backend::verif_hooks::conditioner_batches;
+    let batches: Vec<Vec<(u8, Vec<u8>)>> = args[0]
+        .split('/')
+        .map(|b| parse_msgs(b).into_iter().map(|(c, p)| (c as u8, p)).collect())
+        .collect();
+    fmt_msgs(&conditioner_batches(&batches))
+}
+
+/// `tcp <round/round/...>`: every round is written with `tcp::send_message` to a real loopback socket,
+/// then the receiver reads with `tcp::read_message` until it would block (after the data arrived).
+fn tcp(args: &[&str]) -> String {
+    use bevy_replicon_example_backend::verif_hooks::{read_message, send_message, socket_pair};
+    let (mut writer, mut reader) = socket_pair().unwrap();
+    let mut out = Vec::new();
+    for round in args[0].split('/') {
+        let msgs = parse_msgs(round);
+        let mut expected = 0;
+        let mut errs = Vec::new();
+        for (i, (c, p)) in msgs.iter().enumerate() {
+            if send_message(&mut writer, *c, p) {
+                expected += 1;
+            } else {
+                errs.push(format!("E{i:x}"));
+            }
+        }
+        let mut got = Vec::new();
+        let start = std::time::Instant::now();
+        loop {
+            match read_message(&mut reader) {
+                Ok(m) => got.push(m),
+                Err(e) if e.kind() == std::io::ErrorKind::WouldBlock => {
+                    if got.len() >= expected || start.elapsed().as_secs() >= 5 {
+                        break;
+                    }
+                    std::thread::sleep(std::time::Duration::from_micros(200));
+                }
+                Err(e) => {
+                    errs.push(format!("R{:?}", e.kind()));
+                    break;
+                }
+            }
+        }
+        let mut r = fmt_msgs(&got);
+        if !errs.is_empty() {
+            r = format!("{r}!{}", errs.join("!"));
+        }
+        out.push(r);
+    }
+    out.join("/")
+}
+
+mod pool {
+    pub struct P0;
+    pub struct P1;
+    pub struct LongerName2;
+    pub struct Wrap<T>(pub T);
+}
+
+fn proto_add(hasher: &mut bevy_replicon::shared::protocol::ProtocolHasher, part: u8, prio: usize, idx: usize) -> String {
+    use bevy_replicon::shared::protocol::verif::add_part;
+    use pool::*;
+    macro_rules! go {
+        ($t:ty) => {{
+            add_part::<$t>(hasher, part, prio);
+            std::any::type_name::<$t>().to_string()
+        }};
+    }
+    match idx {
+        0 => go!(P0),
+        1 => go!(P1),
+        2 => go!(LongerName2),
+        3 => go!(Wrap<P0>),
+        4 => go!(Wrap<Wrap<P1>>),
+        5 => go!(u8),
+        6 => go!(String),
+        7 => go!((P0, P1)),
+        8 => go!(Vec<Option<LongerName2>>),
+        _ => go!(()),
+    }
+}
+
+/// `proto_names`: type names of the pool.
+fn proto_names() -> String {
+    (0..10)
+        .map(|i| {
+            let mut h = Default::default();
+            hex(proto_add(&mut h, 1, 0, i).as_bytes())
+        })
+        .collect::<Vec<_>>()
+        .join(",")
+}
+
+/// `proto part:prio:idx:namehex,...`
+fn proto(args: &[&str]) -> String {
+    let mut hasher = bevy_replicon::shared::protocol::ProtocolHasher::default();
+    if let Some(items) = args.first() {
+        for item in items.split(',').filter(|i| !i.is_empty() && *i != "-") {
+            let f: Vec<&str> = item.split(':').collect();
+            let name = proto_add(&mut hasher, num(f[0]) as u8, num(f[1]) as usize, num(f[2]) as usize);
+            if hex(name.as_bytes()) != f[3] {
+                return format!("NAME-MISMATCH {name}");
+            }
+        }
+    }
+    format!("{:x}", bevy_replicon::shared::protocol::verif::finish(hasher))
+}
+
 fn handle(cmd: &str, args: &[&str]) -> String {
     match cmd {
         "ent_dec" => ent_dec(args),
         "ent_enc" => ent_enc(args),
         "tcmp" => tcmp(args),
+        "cond" => cond(args),
+        "tcp" => tcp(args),
+        "proto" => proto(args),
+        "proto_names" => proto_names(),
         "split" => split(args),
         "can_pack" => can_pack(args),
         "hist" => hist(args),
